@@ -84,6 +84,20 @@ def run(index, tier="quick", seed=0) -> Result:
         for p in params:
             if p in ARRAY_PARAMS and p not in bad_params:
                 res.ok("CT-1", f"{label}:{p}", sample={"ctor": label, "param": p, "verdict": "copied before any store"})
+        # ---------------------------------------------------------------- CT-7 the stored normal is a unit vector
+        for e in r["events"]:
+            if e.type == "write" and e.loc[1] == "_normal" and e.rhs is not None and e.mode == "rebind":
+                k7 = f"{label}:_normal"
+                raw = any(loc[0] == "param" for loc in e.rhs.all_aliases()) or "raw-param" in e.rhs.tags or \
+                    (any(isinstance(t_, tuple) and t_[0] == "val-of" for t_ in e.rhs.tags) and e.rhs.pdeps
+                     and all(d_[0] == "param" for d_ in e.rhs.deps))
+                if "unit" in e.rhs.tags:
+                    res.ok("CT-7", k7 + ":" + ("given" if e.rhs.pdeps else "computed"), nontrivial=True)
+                elif raw:
+                    res.bad("CT-7", k7 + ":unnormalised", e.where(), f"{label} stores the caller's normal as given (`{e.src()[:50]}`): every formula that "
+                            "treats `_normal` as a unit vector (projected area, plane offsets, alignment rotation) is off by |n| for a normal of another length")
+                else:
+                    raise AnalysisError(f"CT-7: {label} stores a normal that is not recognised as x / |x| (`{e.src()[:50]}`)")
         # ---------------------------------------------------------------- CT-6 validation tolerances are relative
         from ..dimscan import classify_cmp
         seen6 = set()
